@@ -4,6 +4,7 @@ node delivers, in order and on demand, exactly the successes the specification l
 -/
 import RegexVerif.Lemmas.CompileStep
 import RegexVerif.Lemmas.CompileLoop
+import RegexVerif.Lemmas.CompileLoopR
 import RegexVerif.Lemmas.CompileCut
 import RegexVerif.Lemmas.CompileGLoop
 import RegexVerif.Lemmas.CompileRef
@@ -50,7 +51,7 @@ theorem sizeAlt_cons_cons (cfg : Cfg) (c d : GoNode) (ds : List GoNode) :
   simp
 
 /-- the highest tier the simulation lemma covers so far -/
-def maxTier : Nat := 7
+def maxTier : Nat := 8
 
 section main
 variable (W : World)
@@ -235,14 +236,9 @@ theorem node_delivers : ∀ (n : GoNode) (d : Bool) (a : Nat) (tb : Tables) (pat
         (by simpa using hcode.fetch_end)
       simpa [size] using this
     · cases hp
-  | .charloop t rtl ci ch lo hi, d, a, tb, pat, ht, hp, hok, _, hbd, hcode, _, i, T, S, v, C, s, hwf, he => by
+  | .charloop t rtl ci ch lo hi, d, a, tb, pat, _, hp, hok, _, hbd, hcode, _, i, T, S, v, C, s, hwf, he => by
     simp only [toPat] at hp
     simp only [emitNode] at hcode
-    have hrf : rtl = false := by
-      cases rtl with
-      | false => rfl
-      | true => have := Nat.le_trans ht hWk; simp [tier, maxTier] at this
-    subst hrf
     split at hp
     · next hc =>
       simp only [Bool.and_eq_true, beq_iff_eq, decide_eq_true_eq, List.contains_iff_mem] at hc
@@ -252,24 +248,31 @@ theorem node_delivers : ∀ (n : GoNode) (d : Bool) (a : Nat) (tb : Tables) (pat
       simp only [boundsOk, Bool.and_eq_true, decide_eq_true_eq] at hbd
       obtain ⟨⟨⟨_, h0⟩, hmn⟩, hn⟩ := hbd
       simp only [size]
-      rcases charloop_families t hty with ⟨h1, h2, h3⟩ | ⟨h1, h2, h3⟩
-      · simp only [h1, if_true] at hcode
-        simp only [h3, Bool.false_eq_true, if_false]
-        exact loopnode_delivers W.hrel W.hlen hwf.1 he (List.mem_append_left _ hty) h2.symm (Or.inl ⟨rfl, rfl⟩) h0 hmn hn
-          hcode (fun _ => predOk_one W.X ch hch)
-      · simp only [h1, Bool.false_eq_true, if_false] at hcode
-        simp only [h3, if_true]
-        exact loopnode_delivers W.hrel W.hlen hwf.1 he (List.mem_append_left _ hty) h2.symm (Or.inr (Or.inl ⟨rfl, rfl⟩)) h0 hmn
-          hn hcode (fun _ => predOk_notone W.X ch hch)
+      cases rtl with
+      | false =>
+        rcases charloop_families t hty with ⟨h1, h2, h3⟩ | ⟨h1, h2, h3⟩
+        · simp only [h1, if_true] at hcode
+          simp only [h3, Bool.false_eq_true, if_false]
+          exact loopnode_delivers W.hrel W.hlen hwf.1 he (List.mem_append_left _ hty) h2.symm (Or.inl ⟨rfl, rfl⟩) h0 hmn hn
+            hcode (fun _ => predOk_one W.X ch hch)
+        · simp only [h1, Bool.false_eq_true, if_false] at hcode
+          simp only [h3, if_true]
+          exact loopnode_delivers W.hrel W.hlen hwf.1 he (List.mem_append_left _ hty) h2.symm (Or.inr (Or.inl ⟨rfl, rfl⟩)) h0 hmn
+            hn hcode (fun _ => predOk_notone W.X ch hch)
+      | true =>
+        rcases charloop_families t hty with ⟨h1, h2, h3⟩ | ⟨h1, h2, h3⟩
+        · simp only [h1, if_true] at hcode
+          simp only [h3, Bool.false_eq_true, if_false]
+          exact loopnode_delivers_rtl W.hrel W.hlen hwf he (List.mem_append_left _ hty) h2.symm (Or.inl ⟨rfl, rfl⟩) h0 hmn hn
+            hcode (fun _ => predOk_one W.X ch hch)
+        · simp only [h1, Bool.false_eq_true, if_false] at hcode
+          simp only [h3, if_true]
+          exact loopnode_delivers_rtl W.hrel W.hlen hwf he (List.mem_append_left _ hty) h2.symm (Or.inr (Or.inl ⟨rfl, rfl⟩)) h0
+            hmn hn hcode (fun _ => predOk_notone W.X ch hch)
     · cases hp
-  | .setloop t rtl ci pl lo hi, d, a, tb, pat, ht, hp, hok, _, hbd, hcode, hext, i, T, S, v, C, s, hwf, he => by
+  | .setloop t rtl ci pl lo hi, d, a, tb, pat, _, hp, hok, _, hbd, hcode, hext, i, T, S, v, C, s, hwf, he => by
     simp only [toPat] at hp
     simp only [emitNode, setKey_eq] at hcode hext
-    have hrf : rtl = false := by
-      cases rtl with
-      | false => rfl
-      | true => have := Nat.le_trans ht hWk; simp [tier, maxTier] at this
-    subst hrf
     split at hp
     · next hc =>
       simp only [Bool.and_eq_true, beq_iff_eq, Bool.not_eq_true', List.contains_iff_mem] at hc
@@ -284,16 +287,23 @@ theorem node_delivers : ∀ (n : GoNode) (d : Bool) (a : Nat) (tb : Tables) (pat
         simp only [boundsOk, Bool.and_eq_true, decide_eq_true_eq] at hbd
         obtain ⟨⟨h0, hmn⟩, hn⟩ := hbd
         simp only [size]
-        refine loopnode_delivers W.hrel W.hlen hwf.1 he (List.mem_append_right _ hty) (setloop_family t hty).symm
-          (Or.inr (Or.inr ⟨rfl, rfl⟩)) h0 hmn hn hcode (fun hne => ?_)
-        have hcond : (decide (lo > 0) || decide (hi > lo)) = true := by
-          rcases hne with h | h <;> simp [h]
-        rw [if_pos hcond] at hext
-        have hget : W.fin.sets[(internKey id tb.sets pl).1]? = some pl := by
-          obtain ⟨e, he'⟩ := hext.2
-          rw [he']
-          exact get_of_ext (internKey_get tb.sets pl)
-        exact predOk_set W.hrel W.hnsets hget hrd
+        have hpo : (lo > 0 ∨ hi > lo) → PredOk W.X 2 ((internKey id tb.sets pl).1 : Int) (.set cls false) := by
+          intro hne
+          have hcond : (decide (lo > 0) || decide (hi > lo)) = true := by
+            rcases hne with h | h <;> simp [h]
+          rw [if_pos hcond] at hext
+          have hget : W.fin.sets[(internKey id tb.sets pl).1]? = some pl := by
+            obtain ⟨e, he'⟩ := hext.2
+            rw [he']
+            exact get_of_ext (internKey_get tb.sets pl)
+          exact predOk_set W.hrel W.hnsets hget hrd
+        cases rtl with
+        | false =>
+          exact loopnode_delivers W.hrel W.hlen hwf.1 he (List.mem_append_right _ hty) (setloop_family t hty).symm
+            (Or.inr (Or.inr ⟨rfl, rfl⟩)) h0 hmn hn hcode hpo
+        | true =>
+          exact loopnode_delivers_rtl W.hrel W.hlen hwf he (List.mem_append_right _ hty) (setloop_family t hty).symm
+            (Or.inr (Or.inr ⟨rfl, rfl⟩)) h0 hmn hn hcode hpo
     · cases hp
   | .concat cs, d, a, tb, pat, ht, hp, hok, hcaps, hbd, hcode, hext, i, T, S, v, C, s, hwf, he => by
     simp only [toPat] at hp
